@@ -1342,7 +1342,7 @@ func (t *objectType) resolvedParent() *objectType {
 				}
 			}
 			seen = append(seen, at)
-			tp = at.resolvedType
+			tp = at.ResolvedType()
 		default:
 			panic(px.Error(px.IllegalObjectInheritance, issue.H{`label`: t.Label(), `type`: tp.PType().String()}))
 		}
